@@ -77,6 +77,9 @@ void harness(void)
 #ifdef ALIGN_ONLY
     ASSUME(in_op[i] == O_ALIGN);
 #endif
+#ifdef PHASE_ONLY
+    ASSUME(in_op[i] == O_PHASE || in_op[i] == O_DEPHASE || in_op[i] == O_EMIT);     /* deep PHASE nesting */
+#endif
     cur = i; CodeLen = 0; DontPrint = False;
     switch (in_op[i])
     {
@@ -99,7 +102,7 @@ void harness(void)
         {
           ArgCnt = 1; CodeALIGN(0);
           CHECK(diag_errs == 1 && CodeLen == 0, "ALIGN 0 is rejected with an error");
-#ifndef NO_ALIGN
+#if !defined(NO_ALIGN) && !defined(PHASE_ONLY)
           WITNESS("align 0 rejected");
 #endif
           return;
@@ -115,7 +118,7 @@ void harness(void)
         CHECK(e + CodeLen == target, "ALIGN n advances to the next multiple of n (no move when already aligned)");
         WriteCode();
         m_pc[a] += target - e;
-#ifndef NO_ALIGN
+#if !defined(NO_ALIGN) && !defined(PHASE_ONLY)
         WITNESS("align");
 #endif
         break;
@@ -147,7 +150,7 @@ void harness(void)
       case O_RESTORE:
         ArgCnt = 0; CodeRESTORE(0);
         if (m_sdepth) { m_act = m_save[--m_sdepth];
-#if K >= 2 && !defined(ALIGN_ONLY)
+#if K >= 2 && !defined(ALIGN_ONLY) && !defined(PHASE_ONLY)
           WITNESS("restore");
 #endif
         }
